@@ -4,7 +4,7 @@ From Coq Require Import List NArith Bool String Ascii.
 From T4V Require Import Base.Str C14.Model C14.ProofsContent C14.ProofsCards C14.ProofsCase
   C14.ProofsSplit C14.ProofsBlocks C14.ProofsCell C14.ProofsFront C14.ProofsNumber
   C14.ProofsDeck C14.ProofsCell2 C14.ProofsMeta C14.ProofsExpand C14.Exec C14.LinkC15Front.
-From T4V Require C15.Model C14.LinkC15 C09.Model.
+From T4V Require C15.Model C14.LinkC15 C09.Model C02.Text C14.LinkC02.
 From T4V Require Import Base.Scalar.
 Import ListNotations.
 Open Scope string_scope.
@@ -688,7 +688,7 @@ Corollary C14_parse_metamorphic_c09_linked :
          (Ls Ls' : list (list pline)) (As As' : list acell),
   Forall2 layout_of Ls As -> Forall2 layout_of Ls' As' ->
   Forall acell_ok As -> Forall acell_ok As' -> Forall2 avariant As As' ->
-  let e9 := C15.Model.mkEnv (C15.Model.pyfloat e) (C15.Model.pytrunc e) (C15.Model.pyround e)
+  let e9 := C15.Model.mkEnv (C15.Model.pyfloat e) (C15.Model.pytrunc e) (C15.Model.tround e)
               (C15.Model.pytotrunc e) (C15.Model.trtab e) (C15.Model.normtr e) c09_normfloat
               (C15.Model.getast e) (C15.Model.imps e) (C15.Model.latopt e) in
   exists t t',
@@ -757,3 +757,123 @@ Proof.
   eexists; vm_compute; reflexivity.
 Qed.
 Print Assumptions C14_message_no_blank_refuted.
+
+(* ==== deepening round 3 ==== *)
+
+(* LINK to C02 (reader of surface cards: surfacecard.split, get_surfaces,
+   datacard.to_float): a surface card laid out in two ways (C14_content_layout),
+   with the mnemonic in any letter case and every parameter in any spelling
+   that C02's to_float reads as the same value (same_value; implied by
+   same_number, i.e. equal numerals): C02's
+   parse_surface_card gives the same (flags, number, TR entry, lower-cased
+   mnemonic, parameter VALUES) on the two contents, over every scalar domain
+   (reals and binary64) *)
+Theorem C14_surface_reader_linked :
+  forall (T : Type) (S : Scalar T) (ls ls' : list pline) (bc ds mn mn' p : string) (ps : list string)
+         (p' : string) (ps' : list string),
+  Forall line_ok ls -> Forall line_ok ls' ->
+  flat_map ptoks ls = (bc ++ ds) :: mn :: p :: ps ->
+  flat_map ptoks ls' = (bc ++ ds) :: mn' :: p' :: ps' ->
+  C02.Text.lower mn = C02.Text.lower mn' ->
+  Forall2 (C14.LinkC02.same_value S) (p :: ps) (p' :: ps') ->
+  C02.ProofsText.all_chars C02.Text.is_flag bc = true ->
+  C02.ProofsText.all_chars is_digit ds = true -> ds <> "" ->
+  C02.ProofsText.all_chars C02.Text.is_type_char mn = true -> mn <> "" ->
+  C02.ProofsText.all_chars C02.Text.is_type_char mn' = true -> mn' <> "" ->
+  C02.Text.parse_surface_card S (content (map line_text ls))
+  = C02.Text.parse_surface_card S (content (map line_text ls')) /\
+  C02.Text.parse_surface_card S (content (map line_text ls))
+  = C02.Model.bind (C02.Text.map_res (C02.Text.to_float S) (p :: ps))
+      (fun prm => C02.Model.Ok (bc, parse_digits ds 0, "", C02.Text.lower mn, prm)).
+Proof. intros T S. apply C14.LinkC02.surface_reader_linked. Qed.
+Print Assumptions C14_surface_reader_linked.
+
+(* the spellings of C14_to_float_spellings denote the same number for C02's
+   to_float: 1.5d3 = 1.5D3 = 1.5E3 = 1.5e3 = (signed exponent) 1.5+3 *)
+Theorem C14_spellings_same_number_linked :
+  forall (s d1 : string) (frac : option string) (e : string),
+  sign_str s -> mant_ok d1 frac -> exp_ok e = true ->
+  let m := mantissa d1 frac in
+  C14.LinkC02.same_number (s ++ m ++ "d" ++ e) (s ++ m ++ "e" ++ e) /\
+  C14.LinkC02.same_number (s ++ m ++ "D" ++ e) (s ++ m ++ "e" ++ e) /\
+  C14.LinkC02.same_number (s ++ m ++ "E" ++ e) (s ++ m ++ "e" ++ e) /\
+  (starts_sign e -> C14.LinkC02.same_number (s ++ m ++ e) (s ++ m ++ "e" ++ e)).
+Proof. exact C14.LinkC02.spellings_same_number. Qed.
+Print Assumptions C14_spellings_same_number_linked.
+
+Example C14_surface_reader_linked_nonvacuous :
+  let ls := map snd ex_c1 in
+  let ls' := [mk_pline [("   ", "1")] "" "&"; mk_pline [("", "SO"); (String tab "", "5.0D+0")] " " "$ c"] in
+  Forall line_ok ls /\ Forall line_ok ls' /\
+  flat_map ptoks ls = ("" ++ "1") :: "so" :: "5.0" :: [] /\
+  flat_map ptoks ls' = ("" ++ "1") :: "SO" :: "5.0D+0" :: [] /\
+  C02.Text.lower "so" = C02.Text.lower "SO" /\
+  Forall2 C14.LinkC02.same_number ["5.0"] ["5.0D+0"] /\
+  content (map line_text ls') = " 1 SO 5.0D+0 ".
+Proof.
+  cbn. unfold line_ok, item_ok, gap_nonempty, trailer_ok, C14.LinkC02.same_number.
+  repeat (cbn; match goal with
+         | |- _ /\ _ => split
+         | |- Forall _ [] => constructor
+         | |- Forall _ (_ :: _) => constructor
+         | |- Forall2 _ [] [] => constructor
+         | |- Forall2 _ (_ :: _) (_ :: _) => constructor
+         | |- True => exact I
+         | |- _ <> _ => discriminate
+         | |- _ = _ => reflexivity
+         | |- "" = "" \/ _ => left; reflexivity
+         | |- _ \/ (exists c r, String ?x ?y = String c r /\ _) => right; exists x, y; split; reflexivity
+         end).
+Qed.
+
+(* shorthand with an expected count, the remaining forms: nJ and nI fit-guarded,
+   xM without any condition (it stands for one entry) *)
+Theorem C14_shorthand_expected_jim :
+  forall (V : Type) (rd : string -> option V) (lin : V -> V -> nat -> list V) (mul : V -> V -> V)
+         (e : nat) (acc : list (option V)) (k : nat) (ts : list string),
+  (forall t pre n,
+     kind_of (lower t) = KJump pre -> count_of pre = Some n ->
+     List.length acc + n <= e -> n <> 0 ->
+     vals V (run V rd lin mul (Some e) acc k (t :: ts))
+     = vals V (run V rd lin mul (Some e) acc k (repeat "j" n ++ ts)%list)) /\
+  (forall t pre n lo u hi xs,
+     kind_of (lower t) = KInt pre -> count_of pre = Some n -> plain V rd u hi ->
+     Forall2 (plain V rd) xs (lin lo hi n) ->
+     List.length acc + 1 + List.length xs + 1 <= e ->
+     vals V (run V rd lin mul (Some e) (Some lo :: acc) k (t :: u :: ts))
+     = vals V (run V rd lin mul (Some e) (Some lo :: acc) k (xs ++ u :: ts)%list)) /\
+  (forall t c pre f v x,
+     kind_of (lower t) = KMul (String c pre) -> rd (String c pre) = Some f -> plain V rd x (mul v f) ->
+     vals V (run V rd lin mul (Some e) (Some v :: acc) k (t :: ts))
+     = vals V (run V rd lin mul (Some e) (Some v :: acc) k (x :: ts))).
+Proof.
+  intros V rd lin mul e acc k ts. repeat split; intros.
+  - eapply expand_jump_expected; eauto.
+  - eapply expand_interpolate_expected; eauto.
+  - eapply expand_multiply_expected; eauto.
+Qed.
+Print Assumptions C14_shorthand_expected_jim.
+
+(* LINK C15 + C09, density in another spelling of its exponent marker: as
+   C14_parse_metamorphic_linked, and the densities of a material cell may be any
+   two strings that the environment's normalize_float maps to the same string *)
+Theorem C14_parse_metamorphic_density_linked :
+  forall (T : Type) (SC : Scalar T) (e : C15.Model.env (T:=T))
+         (Ls Ls' : list (list pline)) (As As' : list acell),
+  Forall2 layout_of Ls As -> Forall2 layout_of Ls' As' ->
+  Forall acell_ok As -> Forall acell_ok As' -> Forall2 (avariant_d e) As As' ->
+  exists t t',
+    entries Ls = map Some t /\ entries Ls' = map Some t' /\
+    C15.Model.parse_all SC e t = C15.Model.parse_all SC e t'.
+Proof. intros T SC e Ls Ls' As As' H1 H2 H3 H4 H5. exact (parse_metamorphic_density_linked SC e Ls Ls' As As' H1 H2 H3 H4 H5). Qed.
+Print Assumptions C14_parse_metamorphic_density_linked.
+
+(* C09's model of normalize_float maps the marker spellings of one density to
+   the same string (instances; the general marker-insensitivity of C09's four
+   passes is not proved here) *)
+Example C14_density_case_c09_nonvacuous :
+  c09_normfloat "-1.5E-3" = c09_normfloat "-1.5e-3" /\
+  c09_normfloat "-1.5D-3" = c09_normfloat "-1.5e-3" /\
+  c09_normfloat "-1.5-3" = c09_normfloat "-1.5e-3" /\
+  c09_normfloat "-1.50d-3" = "-1.5e-3".
+Proof. repeat split; vm_compute; reflexivity. Qed.
